@@ -930,7 +930,9 @@ func (e *ConditionalExpr) Value(ctx *hcl.EvalContext) (cty.Value, hcl.Diagnostic
 		diags = append(diags, trueDiags...)
 		if convs[0] != nil {
 			var err error
-			trueResult, err = convs[0](trueResult)
+			// (convert.Convert rather than the raw conversion from UnifyUnsafe:
+			// the raw one drops the marks of null elements nested in the value)
+			trueResult, err = convert.Convert(trueResult, resultType)
 			if err != nil {
 				// Unsafe conversion failed with the concrete result value
 				diags = append(diags, &hcl.Diagnostic{
@@ -953,7 +955,7 @@ func (e *ConditionalExpr) Value(ctx *hcl.EvalContext) (cty.Value, hcl.Diagnostic
 		diags = append(diags, falseDiags...)
 		if convs[1] != nil {
 			var err error
-			falseResult, err = convs[1](falseResult)
+			falseResult, err = convert.Convert(falseResult, resultType)
 			if err != nil {
 				// Unsafe conversion failed with the concrete result value
 				diags = append(diags, &hcl.Diagnostic{
